@@ -134,6 +134,34 @@ func c15Text(c *ev.Ctx, text, note string) {
 		c.Violation("C15:panic:"+ev.PanicSite(p), p, cas)
 		return
 	}
+	if err == nil && got != nil {
+		// the result belongs to the caller: after it was modified in place, decoding the same text again gives an equal value
+		want := ev.JSON(got)
+		snapshot := *got
+		if got.Exts != nil {
+			got.Exts["scribbled-by-the-caller"] = "x"
+			for k := range got.Exts {
+				got.Exts[k] = "overwritten"
+			}
+		}
+		if got.TouchlessSudo != nil {
+			got.TouchlessSudo.Hosts, got.TouchlessSudo.Time, got.TouchlessSudo.IsFirefighter = "scribbled", 424242, !got.TouchlessSudo.IsFirefighter
+		}
+		got.Username, got.Hostname, got.SSHClientVersion, got.HardKey = "x", "x", "x", !got.HardKey
+		var again *message.Attributes
+		var aerr error
+		if p := ev.Guard(func() { again, aerr = message.Unmarshal(text) }); p != "" {
+			c.Violation("C15:panic:"+ev.PanicSite(p), p, cas)
+			return
+		}
+		if aerr != nil || again == nil || ev.JSON(again) != want {
+			c.Violation("C15:decode-depends-on-what-the-caller-did-to-an-earlier-result", fmt.Sprintf("second decode of the same text gives %s (err=%v), the first gave %s", ev.JSON(again), aerr, want), cas)
+			return
+		}
+		// judge the fresh value below (the first one was scribbled on)
+		got = again
+		_ = snapshot
+	}
 	// independent decode: does the text decode as a (non-null) JSON attribute object?
 	var probe map[string]json.RawMessage
 	var ind message.Attributes
@@ -204,7 +232,7 @@ func c15Text(c *ev.Ctx, text, note string) {
 }
 
 func checkC15(c *ev.Ctx) {
-	c.Rule("attribute sets: IfVer{7,8,0,6} x 3 booleans x TouchlessSudo{nil,zero,hosts,time,negative time,all} x CAPubKeyAlgo{0,1,3,99} x SignatureAlgo{0,4,16} x strings (quick: 7 joint rotations + one-field-at-a-time; thorough: full 7^3 cross product; + whitespace/@ values for totality; + 74 runes covering every UTF-8 continuation byte at the start/end of token-final values in both formats) x 9 extension maps, round-tripped through the real Marshal/Unmarshal; texts: all legacy token sequences up to length 3 (thorough 4) over an 18-token alphabet and a catalogue of JSON texts, compared with an independent encoding/json decode and a reference token parser. non-trivial = round trip executed or text accepted/JSON object; distinct by encoded text")
+	c.Rule("attribute sets: IfVer{7,8,0,6} x 3 booleans x TouchlessSudo{nil,zero,hosts,time,negative time,all} x CAPubKeyAlgo{0,1,3,99} x SignatureAlgo{0,4,16} x strings (quick: 7 joint rotations + one-field-at-a-time; thorough: full 7^3 cross product; + whitespace/@ values for totality; + 74 runes covering every UTF-8 continuation byte at the start/end of token-final values in both formats) x 9 extension maps, round-tripped through the real Marshal/Unmarshal; texts: all legacy token sequences up to length 3 (thorough 4) over an 18-token alphabet, plus ~1 100 texts spelling the documented attribute names in other letter cases; every accepted result is modified in place and the text decoded again and a catalogue of JSON texts, compared with an independent encoding/json decode and a reference token parser. non-trivial = round trip executed or text accepted/JSON object; distinct by encoded text")
 	c.Assume("valid UTF-8 only", "legacy fields are promised only for values free of Unicode whitespace and '@'")
 	if c.ReplayCase != nil {
 		var k c15Case
@@ -297,6 +325,24 @@ func checkC15(c *ev.Ctx) {
 		}
 	}
 	rec(nil, 0)
+	// the same attribute names in other letter cases (unknown extension keys to the legacy parser, whatever was seen before):
+	// every pair and triple of {req, HardKey, Touch2SSH, IFVer, SSHClientVersion} x {as documented, lower, UPPER} with a req
+	{
+		names := []string{"HardKey=true", "Touch2SSH=true", "IFVer=6", "SSHClientVersion=8.1", "TouchlessSudoHosts=h", "IsFirefighter=true"}
+		var variants []string
+		for _, n := range names {
+			i := strings.Index(n, "=")
+			variants = append(variants, n, strings.ToLower(n[:i])+n[i:], strings.ToUpper(n[:i])+n[i:])
+		}
+		for _, rq := range []string{"req=u@h", "REQ=u@h", "Req=u@h"} {
+			for _, a := range variants {
+				texts = append(texts, rq+" "+a, a+" "+rq)
+				for _, b := range variants {
+					texts = append(texts, "req=u@h "+a+" "+b)
+				}
+			}
+		}
+	}
 	c.Set("legacy_token_sequences", len(texts))
 	c.ParMap(len(texts), func(i int) {
 		c15Text(c, texts[i], "legacy tokens")
